@@ -230,6 +230,19 @@ CHECKS["C04"] = {
     "note": "Trusted: exp/log/TransInv (C01/C02); scipy Rotation default quaternion convention.",
 }
 
+CHECKS["C20"] = {
+    "engine": "sa",
+    "technique": "path-counting and guard-dominance dataflow over disp/dispa; dispatch exhaustiveness",
+    "design_ref": "DESIGN.md section 4 C20",
+    "text": ("Decides for arrays of every shape the structural half of 'disp shows every element': disp prints exactly the string "
+             "it returns (once, unless noprint); in each dimension branch exactly one rendering per element / sub-array is "
+             "produced and appended per index of range(shape[0]) on every path, with width nd+6, precision nd below 9999 and nd "
+             "forwarded through the <=4-D recursion; the dims dispatch is exhaustive; probes that raise on 0-d / shapeless "
+             "objects sit inside the catch-all fallback; round() is only reached for finite |x| >= 9999. Exception freedom for "
+             "arbitrary Python objects (dynamic __str__/__format__) is NOT decided."),
+    "note": "Trusted: Python string formatting of finite floats; the stated input kinds.",
+}
+
 _PENDING = "rule module not yet built in this round (see DESIGN.md section 4 for the planned static rules)"
 for _i in range(1, 21):
     _p = "C%02d" % _i
